@@ -3,7 +3,7 @@
 // Oracle (from the statement): rows(S LIMIT n) == the first n rows of rows(S) for every n in 0..rows+2; a non-aggregate
 // query consumes no input beyond the line that produced its n-th row (none for n = 0); an aggregate query in batch mode
 // reads everything.  Grid: every sequence of up to 3 admitted lines over a 4-line pool (also split into two files at every
-// cut) x 8 plain / DISTINCT statements, 4 aggregate statements, 4 join statements (several rows per line, all-NULL rows, WHERE on the joined side).
+// cut) x 8 plain / DISTINCT statements, 4 aggregate statements, 4 join statements (several rows per line, all-NULL rows, WHERE on the joined side); 3 inputs with lines the table does not admit x all 12 statements.
 include!("verif_grid_common.rs");
 include!("verif_grid_qcommon.rs");
 
@@ -66,6 +66,18 @@ fn verif_grid() {
             let st1 = st.to_string();
             g.case(&format!("two-files-b{}-cut{}-s{}", bi, cut, si), move || check(T, &st1, &files, si == 2));
         } } }
+    }
+    // lines the table does not admit (no row comes of them) in front of and between the admitted ones: LIMIT counts rows, not lines
+    let noisy: Vec<Vec<&str>> = vec![vec!["noise", "k=a v=1", "k=a v=2"], vec!["k=a v=1", "", "k=a v=2", "k=c v=7"], vec!["k=a v=1", "k=b v=", "k= =", "###", "k=c v=7", "k=a v=2"]];
+    for (bi, base) in noisy.into_iter().enumerate() {
+        for (si, st) in plain.iter().enumerate() {
+            let (b1, st1) = (base.clone(), st.to_string());
+            g.case(&format!("noisy-b{}-s{}", bi, si), move || check(T, &st1, &[b1], false));
+        }
+        for (si, st) in aggregate.iter().enumerate() {
+            let (b1, st1) = (base.clone(), st.to_string());
+            g.case(&format!("noisy-aggregate-b{}-s{}", bi, si), move || check(T, &st1, &[b1], true));
+        }
     }
     // joins: several rows per line, rows that consist of NULLs only
     let hosts = write_temp("hosts", &join_lines(&["h=alpha site=eu", "h=beta site=us", "h=alpha site=ap", "h=delta site="]));
